@@ -2,8 +2,8 @@
 import glob, json, os
 import vlib
 
-TARGETS = ["Base/Num.vo", "Base/Corr.vo", "C07/Model.vo", "C07/ModelNewton.vo", "C07/ModelNewtonMin.vo", "C07/Corr.vo", "C07/Spec.vo",
-           "C07/SpecNewton.vo", "C07/SpecNewtonMin.vo", "C07/ProofsNewton.vo", "C07/ProofsNewtonMin.vo", "C07/ExamplesNewton.vo",
+TARGETS = ["Base/Num.vo", "Base/Corr.vo", "C07/Model.vo", "C07/ModelNewton.vo", "C07/ModelNewtonDir.vo", "C07/ModelNewtonMin.vo", "C07/Corr.vo", "C07/Spec.vo",
+           "C07/SpecNewton.vo", "C07/SpecNewtonMin.vo", "C07/ProofsNewton.vo", "C07/ProofsNewtonMin.vo", "C07/ProofsNewtonDir.vo", "C07/ExamplesNewton.vo", "C07/ExamplesNewtonDir.vo",
            "C07/ExamplesNewtonMin.vo", "C07/ModelSaga.vo", "C07/SpecSaga.vo", "C07/ProofsSaga.vo", "C07/ExamplesSaga.vo", "C07/ModelSagaJit.vo", "C07/ProofsSagaJit.vo", "C07/ExamplesSagaJit.vo", "C07/ModelBlahut.vo", "C07/ProofsBlahut.vo", "C07/ModelAdamGeneric.vo", "C07/ProofsAdamGeneric.vo",
            "C07/ProofsQuad.vo", "C07/ProofsBase.vo",
            "C07/ProofsRprop.vo", "C07/ProofsGD.vo", "C07/ProofsLS.vo", "C07/ProofsBfgs.vo", "C07/ProofsDense.vo", "C07/ProofsAdam.vo",
@@ -14,8 +14,16 @@ PARTIAL = ("Theorems are about the hand-written oracle-machine models in coq/C07
            "hook and constraint callback are universally quantified oracles. Convergence rates and 'reaches the "
            "minimiser within the cap' are not claimed. AD seed bookkeeping (Variables(1/2), the -t1 seeds of RunMin's "
            "phi) is checked by the tie, not proved. newton (RunRoot, RunCrit, RunMin and newton_min's back-tracking "
-           "variant through the add-only hook algorithm/newton/verif_c07.go): getDirection (linear solve / LDL / eigenvalue "
-           "modification) is an oracle whose logged answers feed the replay. saga (the four template instances and sagaJit with JitUpdateL1): math/rand's draws are an oracle (the "
+           "variant through the add-only hook algorithm/newton/verif_c07.go): since round 6 getDirection is a FUNCTION "
+           "(ModelNewtonDir.get_direction; the replay runs the machines closed over it and compares every direction "
+           "bit for bit): its glue (which solver on what, error mapping, in-place 1/D, the two MdotM, MdotV) is modelled "
+           "here, the solvers are C04's model of matrixInverse.Run / Gauss-Jordan and C05's model of "
+           "cholesky_ldl_forcepd (imported, not re-proved here); 'Eigenvalue' is modelled as the panic it is whenever "
+           "qrAlgorithm.Run returns (F-NEWTON-EIGENVALUE-MODE; a non-returning QR iteration is C20's). The quadratic "
+           "convergence theorem over R takes 'the direction solves A t = grad' as a hypothesis for n >= 2 (it is C04's "
+           "gauss_jordan_correct, not imported across properties) and is closed for n = 1; over R there is no NaN, so the "
+           "'singular' outcome (detected by NaN in the Go code) exists only in the binary64 instance. "
+           "saga (the four template instances and sagaJit with JitUpdateL1): math/rand's draws are an oracle (the "
            "thread partition is C17's); the stop theorem states the test over ALL coordinates (unconditional since fix "
            "494d9f3; the pre-fix witness is a regression example and a corpus run). blahut: the iteration body (log/exp/pow) is a step oracle, tied through a "
            "lock-step re-implementation in the harness; blahut has no stop test of its own, the KKT clause is vacuous. "
@@ -120,6 +128,8 @@ def hunt(ctx, binary, bad):
 def run(ctx):
     ctx.cov["trusted_base"] = vlib.TRUSTED_BASE_COMMON + [
         "math.Pow(x, 2.0) equals the correctly rounded x*x unless the square is subnormal (runs with such gradients are dropped and counted)",
+        "getDirection 'LDL': math.Pow(theta/beta, 2.0) of cholesky_ldl_forcepd is taken as the correctly rounded square (same assumption, via C05's model)",
+        "the solver models imported from coq/C04/Model.v (m_inverse) and coq/C05/Model.v (cholesky_ldl_forcepd) are tied to gaussJordan / matrixInverse / cholesky by C04 / C05; here only through the direction getDirection returns",
         "axioms: see 'print_assumptions'"]
     ctx.cov["partial"] = PARTIAL
     ctx.cov["uncapped_loops"] = UNCAPPED
